@@ -76,6 +76,22 @@ def prove(ctx):
     if missing_pa:
         ctx.proof_problems.append("no Print Assumptions for: " + ", ".join(missing_pa))
     ctx.assumptions = build.parse_assumptions(log2, pas)
+    # further statement-only files that belong to this check (e.g. Properties_Gauss.v: the executed list instance
+    # computes the objects the theorems are about); same rules: re-checked on every run, Print Assumptions parsed
+    for extra in getattr(p, "EXTRA_PROPERTIES", []):
+        thms_x, _, pas_x = build.parse_properties(extra)
+        ctx.theorems = thms = thms + thms_x
+        ctx.obligations = len(thms)
+        okx, logx = build.coq_compile_properties(extra)
+        with open(os.path.join(ctx.work, "properties_%s.log" % extra), "w") as f:
+            f.write(logx)
+        if not okx:
+            ctx.proof_problems.append("Properties_%s.v does not check: %s" % (extra, tail_error(logx)))
+            continue
+        missing_pa = [t for t in thms_x if t not in pas_x]
+        if missing_pa:
+            ctx.proof_problems.append("no Print Assumptions for: " + ", ".join(missing_pa))
+        ctx.assumptions.update(build.parse_assumptions(logx, pas_x))
     allowed = set(getattr(p, "AXIOMS_ALLOWED", []))
     n = 0
     for t in thms:
@@ -89,10 +105,11 @@ def prove(ctx):
             n += 1
     ctx.discharged = n if not bad else 0
     if ctx.tier == "thorough" and not ctx.proof_problems:
-        ok3, log3 = build.coqchk(ctx.pid)
-        ctx.extra["coqchk"] = {"ok": ok3, "tail": log3[-1500:]}
-        if not ok3:
-            ctx.proof_problems.append("coqchk rejects Properties_%s: %s" % (ctx.pid, log3[-400:]))
+        for name in [ctx.pid] + list(getattr(p, "EXTRA_PROPERTIES", [])):
+            ok3, log3 = build.coqchk(name)
+            ctx.extra["coqchk" if name == ctx.pid else "coqchk_" + name] = {"ok": ok3, "tail": log3[-1500:]}
+            if not ok3:
+                ctx.proof_problems.append("coqchk rejects Properties_%s: %s" % (name, log3[-400:]))
     # theorems the plugin requires to be present (so that deleting one is noticed)
     for t in getattr(p, "REQUIRED_THEOREMS", []):
         if t not in thms:
